@@ -224,6 +224,22 @@ let run_leaf toks =
               done) res;
             string_of_int !cnt ^ " " ^ pr !sum ^ " " ^ pr !first ^ " " ^ pr !last ^ " segs=" ^ string_of_int (List.length segs)
             ^ " small=" ^ string_of_int nsmall ^ " medium=" ^ string_of_int nmed ^ " big=" ^ string_of_int nbig))
+  | ["tiny"; stop] ->
+      (* the model of SievingPrimes::tinySieve for an Erat with the given stop: SievingPrimes' own stop is isqrt(stop), the table
+         has isqrt(isqrt(stop)) + 1 entries and is built iff 165^2 <= isqrt(stop) *)
+      let st = Zr.sqrt (z stop) in
+      if not (tiny_built (Zr.of_int 165) st) then "built=0 size=0 count=0 sum=0 last=0 |"
+      else begin
+        let n = Zr.sqrt st in
+        let sv = Array.of_list (tiny_sieve n) in
+        let cnt = ref 0 and sum = ref 0 and last = ref 0 and first = Buffer.create 64 in
+        let i = ref 3 in
+        while !i < Array.length sv do
+          if sv.(!i) then begin incr cnt; sum := !sum + !i; last := !i; if !cnt <= 40 then Buffer.add_string first (" " ^ string_of_int !i) end;
+          i := !i + 2
+        done;
+        Printf.sprintf "built=1 size=%d count=%d sum=%d last=%d |%s" (Array.length sv) !cnt !sum !last (Buffer.contents first)
+      end
   | ["kernel"; l1; kb; a; b] ->
       (* the model kernel (segments of the geometry model, addSievingPrime, EratSmall cross-off over the extracted step table)
          on [a, b], a >= 7: number of surviving numbers in [a, b], their sum mod 2^61-1 and the first / last one.
